@@ -118,7 +118,7 @@ class Ctx:
     def canary(self, name, claim, assumptions=()):
         """Must-fail probe: the (wrong) claim has to be refuted, otherwise the harness is vacuous."""
         status, _ = prove(claim, assumptions, 30000)
-        self.results.append({"name": f"canary:{name}@{self.key}", "status": "canary", "refuted": status == "sat"})
+        self.results.append({"name": f"canary:{name}@{self.key}", "status": "canary", "refuted": status == "sat", "unknown": status == "unknown"})
 
     def sat(self, name, formula):
         """Reachability/cover probe: formula must be satisfiable (guards against contradictory assumptions)."""
@@ -254,7 +254,10 @@ def run_configs(run: Run, modname, cfgs, cosim_cycles=16, procs=None, crash_is_v
         if out.get("nontrivial"):
             run.nontrivial.add(out["key"])
         for r in out["results"]:
-            if r["status"] == "canary":
+            if r["status"] == "canary" and r.get("unknown"):
+                # the probe could not be evaluated within the budget: no evidence either way -> undecided (exit 2), not a fault
+                run.undecided.append(f"{r['name']}: vacuity probe left open by the solver within the budget")
+            elif r["status"] == "canary":
                 run.canary(r["name"], r["refuted"])
             elif r["status"] == "discharged":
                 run.add(r["name"], "discharged", "z3", r["time"], clause=r["clause"], bounded=True)
